@@ -2,11 +2,15 @@
 Props/C05.lean — "RSA keys with patterned, sparse or smooth primes are always flagged".
 
 What a theorem can carry here (see DESIGN.md section 5/7):
- * the Pollard p-1 clause at full strength (`pollard_flag`);
+ * the Pollard p-1 clause for an ARBITRARY product `m` under the hypothesis `g ∣ m`
+   (`pollard_flag`); which `g` divide the product the constructor really builds — and that
+   "2^20-smooth" is not enough — is Props/C05Pollard.lean (`defaultM_dvd_iff`,
+   `pollard_default_flag`, `literal_text_fails`);
  * for the lattice families: the check-level enumeration of denominators, and soundness of
    whatever LLL returns (C01). That LLL *finds* the planted vector is an oracle assumption and
-   is NOT claimed;
- * for the low-Hamming-weight clause: threshold logic only (best-first search is a heuristic).
+   is NOT claimed (pre/post sandwich: Props/C05Pre.lean, Props/C05Permuted.lean);
+ * the continued-fraction clause is proved (Props/C05Cf.lean);
+ * for the low-Hamming-weight clause: nothing beyond soundness (best-first search is a heuristic).
 -/
 import ParanoidModel.Proofs.Pollard
 import ParanoidModel.Proofs.Fermat
